@@ -129,6 +129,10 @@ BigSieveSet == {Rec("pq", b, a, AbortPref(t, 40)) : b \in {160, 200, 260}, a \in
                \cup {Rec("pq", 300, a, AbortPref(t, 8)) : a \in {"mpqs", "siqs"}, t \in {0, 2, 4}}
                \cup {Rec("pq", b, "qs", AbortPref(t, 40)) : b \in {160, 200, 260}, t \in {0, 2}}
                \cup {Rec("pq", b, "auto", AbortPref(t, 40)) : b \in {200, 260}, t \in {0, 4}}
+               \* thorough: further up (measured in the checked profile: 340 bits, 3 polls: 24 s / 12 s; MPQS 380 bits: 30 s)
+               \cup (IF Thorough THEN {Rec("pq", 340, a, AbortPref(t, 3)) : a \in {"mpqs", "siqs"}, t \in {0, 4}}
+                                      \cup {Rec("pq", 380, "mpqs", AbortPref(0, 3))}
+                                 ELSE {})
 
 C03Set == {r \in Grid : GridOK(r) /\ r.bits \in {24, 48, 64, 80, 100}} \cup EdgeSet \cup LimitSet \cup BigSieveSet
           \cup {r \in SpecialSet : SpecialOK(r)} \cup BoundarySet
